@@ -145,7 +145,7 @@ CHECKS = {
              "1e-12 and have the query's shape; permutations of the data points -> agreement within a kappa-derived bound; linear combinations of data "
              "-> linear combinations of predictions for the gridders that are linear in the data.",
         design_ref="DESIGN.md 5 (C04)",
-        note="Cubic under permutation only with rescale or unit scale at 1e-2 (SciPy's iterative gradients); KNeighbors ties excluded; kappa > 1e8 skipped.",
+        note="Cubic is excluded from the permutation relation (SciPy's iterative gradient estimate is order dependent by several percent; verde's part is decided bitwise by the C03 differential); KNeighbors ties excluded; kappa > 1e8 skipped.",
         technique="property-based testing (Hypothesis) with metamorphic relations",
     ),
     "C05": dict(
@@ -178,9 +178,9 @@ CHECKS = {
         technique="property-based testing (Hypothesis): differential against independently fitted and scored models, harness-owned schedules",
     ),
     "C20": dict(
-        text="(1) Purity sweep over a registry of ~115 public callables/estimator methods with writable and read-only arguments: argument bytes/shape/dtype/"
-             "strides/flags identical after the call, results repeatable, read-only == writable; (2) a Hypothesis rule-based state machine generates fit/"
-             "predict/grid/clone/set_params histories over ten estimator kinds and five datasets; after every step predictions must equal, bitwise, a fresh "
+        text="(1) Purity sweep over a registry of ~140 public callables/estimator methods (array- and list-valued regions, mixed memory layouts) with writable and read-only arguments: argument bytes/shape/dtype/"
+             "strides/flags identical after the call, results repeatable even after the caller overwrote the first result in place, read-only == writable, cross_val_score leaves its estimator untouched; (2) a Hypothesis rule-based state machine generates fit/"
+             "predict/grid/clone/set_params/toggle_params histories over ten estimator kinds and seven datasets; after every step predictions must equal, bitwise, a fresh "
              "estimator fitted only on the latest dataset (VectorSpline2D with its documented first force locations) and region_ the latest bounding box; "
              "(3) predict-like calls before fit raise; (4) 32 kinds of single inconsistencies broken into valid arguments must be rejected.",
         design_ref="DESIGN.md 5 (C20)",
